@@ -46,4 +46,10 @@ def renderList : List UInfo → Nat → List Nat
   | c :: cs, indent => render c indent ++ renderList cs indent
 end
 
+/-- `inspectFile`: the path printed in front of the report, followed by ": ".  `Gen.cliSanitizesPath` says whether the
+    path goes through `sanitize` like every other displayed string. -/
+def pathPrefix (path : List RUnit) : List Nat :=
+  (if Gen.cliSanitizesPath then sanitize path
+   else path.flatMap fun u => match u with | .rune r => [r] | .bad _ => [0xFFFD]) ++ [58, 32]
+
 end WhatIs.Cli
